@@ -321,13 +321,17 @@ class UndeclaredNameVisitor(NodeVisitor):
         self.visit(node.target)
 
     def visit_AssignBlock(self, node: nodes.AssignBlock) -> None:
-        for child in node.body:
-            self.visit(child)
+        # the body is a scope of its own: what it stores is gone afterwards
+        self._visit_scope(*node.body)
 
         if node.filter is not None:
             self.visit(node.filter)
 
         self.visit(node.target)
+
+    def visit_FilterBlock(self, node: nodes.FilterBlock) -> None:
+        self.visit(node.filter)
+        self._visit_scope(*node.body)
 
     def visit_For(self, node: nodes.For) -> None:
         self.visit(node.iter)
